@@ -207,3 +207,35 @@ func H_C04_top_map2() {
 	m := map[int]vN2{1: {L: []*vD2{{X: vStr("x1"), D: vD3{N: "n"}}}}, 2: {L: []*vD2{{X: "x", D: vD3Val("d2")}}}}
 	vRunNested("C04 top two-entry map", m, true)
 }
+
+// one sub-object reachable over several marked paths (a DAG, not a cycle): validated under every path
+type vN5 struct {
+	P *vD2            `valid:"exist"`
+	Q *vD2            `valid:"required"`
+	L []*vD2          `valid:"exist"`
+	M map[string]*vD2 `valid:"exist"`
+}
+
+func H_C04_shared() {
+	s := &vD2{X: vStr("X"), D: vD3Val("D")}
+	o := &vN5{P: s, Q: s}
+	if vndBool("inSlice") {
+		o.L = []*vD2{s, s}
+	}
+	if vndBool("inMap") {
+		o.M = map[string]*vD2{"k": s}
+	}
+	vRunNested("C04 shared sub-object", o, false)
+}
+
+// int-, uint8- and bool-keyed maps under a marked field: Parent.Field[key]
+type vN6 struct {
+	I map[int]vD3   `valid:"exist"`
+	U map[uint8]vD3 `valid:"required"`
+	B map[bool]*vD3 `valid:"exist"`
+}
+
+func H_C04_map_keys() {
+	o := &vN6{I: map[int]vD3{42: vD3Val("I")}, U: map[uint8]vD3{7: vD3Val("U")}, B: map[bool]*vD3{true: {N: vStr("B")}}}
+	vRunNested("C04 non-string map keys", o, false)
+}
